@@ -112,7 +112,7 @@ def check_property_file(pid, scratch):
             "log": out[-3000:], "ok": ok}
 
 
-RESULT_RE = re.compile(r"\((\d+)%nat,\s*(true|false),\s*(true|false),\s*(true|false)\)")
+RESULT_RE = re.compile(r"\((\d+)(?:%nat)?,\s*(true|false),\s*(true|false),\s*(true|false)\)")
 
 
 def eval_cases_files(files, jobs=8, timeout=900):
@@ -132,7 +132,17 @@ def eval_cases_files(files, jobs=8, timeout=900):
         if pr.returncode != 0:
             results[f] = {"error": out[-2000:]}
         else:
-            results[f] = {"bad": [(int(i), a == "true", s == "true", r == "true") for i, a, s, r in RESULT_RE.findall(out)]}
+            body = out[out.find("result ="):] if "result =" in out else None
+            if body is None:
+                results[f] = {"error": "no result printed: " + out[-500:]}
+                continue
+            found = RESULT_RE.findall(body)
+            # every reported tuple must be parsed: count opening parentheses of tuples
+            if body.count("(") - body.count("(nat") - body.count("(bool") > len(found) and "[]" not in body.split(":")[0]:
+                if len(re.findall(r"\(\d+", body)) != len(found):
+                    results[f] = {"error": "could not parse the report: " + body[:500]}
+                    continue
+            results[f] = {"bad": [(int(i), a == "true", s == "true", r == "true") for i, a, s, r in found]}
     return results
 
 
